@@ -732,7 +732,7 @@ def pick_pool(rng, kw_pddl, kw_anml):
 
 def rename_upj(P0, rng, pool, pname=None):
     """the generated problem with its identifiers replaced through a seeded substitution"""
-    P = copy.deepcopy(P0)
+    P = json.loads(json.dumps(P0))  # (not deepcopy: the generator may share sub-expression objects, each is renamed once)
     p_sub = rng.choice([0.5, 0.7, 0.85, 1.0])
     glob = {}
     used = set()
